@@ -119,9 +119,10 @@ def thetas(tier, seed):
 
 
 def lengths(tier):
+    # '1+4e-6' / '1-1e-5': almost, but not, unit (a direction typed to a few decimals): it is normalised like any other length
     if tier == 'quick':
-        return [('1e-3', 1e-3), ('1', 1.0), ('1e6', 1e6)]
-    return [('1e%d' % k if k else '1', 10.0 ** k) for k in range(-3, 7)]
+        return [('1e-3', 1e-3), ('1', 1.0), ('1e6', 1e6), ('1+4e-6', 1 + 4e-6)]
+    return [('1e%d' % k if k else '1', 10.0 ** k) for k in range(-3, 7)] + [('1+4e-6', 1 + 4e-6), ('1-1e-5', 1 - 1e-5), ('1+1e-9', 1 + 1e-9)]
 
 
 COORDS = [('0', 0.0), ('1', 1.0), ('-1', -1.0), ('g', 0.7), ('1e3', 1e3), ('-1e3', -1e3)]
